@@ -515,7 +515,7 @@ func (e *daemonEngine) bp(n *dNode, id string) *core.BeaconProcess {
 
 // collectEpoch reads, from every running member, the group and share it holds
 // and checks C06 for the epoch; it also (re)derives the master secret.
-func (e *daemonEngine) collectEpoch(id string, members []int, epochNo int) *epochInfo {
+func (e *daemonEngine) collectEpoch(id string, members []int, epochNo int, old *key.Group) *epochInfo {
 	cc := e.chains[id]
 	ep := &epochInfo{n: epochNo, members: members, complete: map[int]bool{}}
 	var shares []*share.PriShare
@@ -530,6 +530,9 @@ func (e *daemonEngine) collectEpoch(id string, members []int, epochNo int) *epoc
 		g, sh := bp.VerifGroup(), bp.VerifShare()
 		if g == nil || sh == nil {
 			continue
+		}
+		if old != nil && groupDiff(old, g) == "" {
+			continue // this member did not complete the new epoch: it still holds the previous group
 		}
 		ep.complete[i] = true
 		if ref == nil {
